@@ -74,6 +74,53 @@ def generate(seed, tier):
     while len(world['books']) < 2:
         world['books'].append([[2, 2]])
     fr = Rng(seed, 'faults')
+    # cells that combine SEVERAL faultable items, each behind its own
+    # interceptor (an item that resolves must not be lost because a sibling
+    # does not, and vice versa)
+    from ..world import Index
+    if sw.chance(.6):
+        leaves_ = []
+        for k, nm in enumerate(world['names']):
+            if nm['b'] == 0:
+                tg = nm['t']
+                single = (tg[3], tg[4]) == (tg[5], tg[6])
+                leaves_.append(['nm', k] if single else ['f', 'SUM', ['nm', k]])
+        for c in world['cells']:
+            if c['at'][0] != 0 or c['at'][1] != 0:
+                r = ['r'] + c['at'] + c['at'][2:]
+                if 'arr' not in c and r not in leaves_:
+                    leaves_.append(r)
+        fr.shuffle(leaves_)
+        idx = Index(world)
+        h, w = world['books'][0][0]
+        free = [(0, 0, r, c) for r in range(h + 1) for c in range(w + 1)
+                if idx.occupant((0, 0, r, c)) is None]
+        covered = set()
+        for c in world['cells']:
+            if 'f' in c:
+                for x in refs_of(c['f']):
+                    rr = x if x[0] == 'r' else world['names'][x[1]]['t']
+                    covered.update(rect_cells(rr))
+        for nm in world['names']:
+            covered.update(rect_cells(nm['t']))
+        free = [p for p in free if p not in covered]
+        for _ in range(fr.randrange(1, 3)):
+            if len(leaves_) < 2 or not free:
+                break
+            a, b2 = leaves_.pop(), leaves_.pop()
+            k = fr.randrange(4)
+            if k == 0:
+                f = ['op', '+', ['f', 'IFERROR', a, ['n', 0]],
+                     ['f', 'IFERROR', b2, ['n', 0]]]
+            elif k == 1:
+                f = ['op', '+', ['f', 'ISERROR', a], ['f', 'ISERROR', b2]]
+            elif k == 2:
+                f = ['f', 'IF', ['f', 'ISERROR', b2], ['n', 7], a]
+            else:
+                f = ['op', '+', ['f', 'IFERROR', a, ['n', 1]], b2]
+            at = free.pop(fr.randrange(len(free)))
+            world['cells'].append({'at': list(at), 'f': f})
+        world['books'][0][0] = [h + 1, w + 1]
     points = []
     for b in range(1, len(world['books'])):
         points.append({'kind': 'book', 'b': b, 'disk': fr.pick(DISK_KINDS),
@@ -196,6 +243,11 @@ class FaultObservation(Observation):
         super().__init__(world, placement, sol, loaded)
 
         self.failed_rects = ()   # transient mode: rectangles assumed failed
+        self._loaded = set(loaded)
+
+    def was_loaded(self, i):
+        b, s, r1, c1, r2, c2 = cell_rect(self.world['cells'][i])
+        return self.P.rect_id(b, s, r1, c1, r2, c2) in self._loaded
 
     def gone_pos(self, pos):
         return (pos[0], pos[1]) in self.gone or pos[0] in self.bad_books
@@ -369,6 +421,13 @@ def judge(w, obs, twin, info, transient, fail, stats, what, on, pl):
 
     present = [i for i in range(n) if normal['c%d' % i] != MISSING and
                not gone(tuple(w['cells'][i]['at']))]
+    # a cell the model did load must have a value (an error value at worst)
+    for i in range(n):
+        if normal['c%d' % i] == MISSING and obs.was_loaded(i) and \
+                not gone(tuple(w['cells'][i]['at'])):
+            fail('C14.noabort', 'faults {%s}: cell %d was loaded but has no '
+                 'value at all after the calculation' % (what, i),
+                 cell=i, on=on)
     # direct fault use per cell
     direct_prop, direct_any, kinds = set(), set(), {}
     for i in present:
@@ -414,7 +473,7 @@ def judge(w, obs, twin, info, transient, fail, stats, what, on, pl):
     for i in sorted(direct_prop):
         # the left-most error wins: a direct user that also consumes another
         # faulted cell may show that cell's error kind
-        if (G.reach(i, 'prop') - {i}) & direct_prop:
+        if (G.reach(i) - {i}) & direct_any:
             kinds[i].update({'e:#REF!', 'e:#NAME?'})
     bad_transient = transient and bool(bad_books)
     # --- C14.kind
